@@ -330,7 +330,11 @@ func runSinkPool(c Case, classes *[]string, nontrivial *bool) *hx.Failure {
 			for name, e := range errs {
 				*nontrivial = true
 				if em, ok := e.(map[interface{}]interface{}); ok {
-					*classes = append(*classes, "sink-error."+short(fmt.Sprint(em["type"])))
+					if t := fmt.Sprint(em["type"]); ecalTypes[t] {
+						*classes = append(*classes, "sink-error."+short(t))
+					} else {
+						*classes = append(*classes, "sink-error.raised-type")
+					}
 				}
 				if name != "bad" {
 					return hx.Failf("sink-poisons-processor", "event %d: sink %v is reported failed (%v); only sink bad can fail\n%s", i, name, e, src)
@@ -379,7 +383,7 @@ func sinkMatrix(yield func(Case) bool) {
 			return false
 		}
 		n++
-		if n%9 == 0 {
+		if n%9 == 0 || hx.Thorough() {
 			p := *c.Sink
 			p.Pool = true
 			c2 := c
